@@ -34,6 +34,26 @@ type walker struct {
 	seenViol map[string]bool
 	bad      map[int]bool
 	fileClient, reopenEach bool
+	div, fol map[string]int // per choice ("none" / "latched" after a failed audit write): times the implementation went the other way / this way
+}
+
+// after a failed audit write the implementation either stays latched (every later call fails closed whatever else is
+// injected) or is live again: the two families of edges out of such a state
+func freeFault(f string) string {
+	if f == "latched" {
+		return "latched"
+	}
+	return "live"
+}
+
+// unavailable: an edge that stands for a choice the specification leaves to the implementation (after a failed audit
+// write: recover or stay latched) which this implementation has shown it never takes.
+func (w *walker) unavailable(e Edge) bool {
+	if e.Req != nil || w.g.States[e.F].Audit || e.Op.Op == "reopen" {
+		return false
+	}
+	f := freeFault(e.Op.Fault)
+	return w.div[f] > 0 && w.fol[f] == 0
 }
 
 func (w *walker) reset() {
@@ -70,21 +90,56 @@ func hiddenCounter(s MState) bool {
 var httpRand = rand.New(rand.NewSource(1))
 
 func execEdge(sys *Sys, g *Graph, e Edge, probe bool, httpMode bool) ([]string, Outcome) {
-	if e.Req != nil {
-		return execHTTP(sys, g, e, probe, httpRand)
+	bad, out, _ := execEdgeAlt(sys, g, e, -1, probe, httpMode)
+	return bad, out
+}
+
+// sameCall: two edges out of one state that are the same call by the same caller. Where the specification leaves the
+// implementation a choice (after a failed audit write the writer may stay latched -- fault "latched" -- or recover --
+// fault "none") the state has one edge per choice, and the real outcome has to agree with one of them.
+func sameCall(a, b Edge) bool {
+	if a.Req != nil || b.Req != nil || a.F != b.F {
+		return false
 	}
-	var out Outcome
+	return a.Op.Op == b.Op.Op && a.Op.Who == b.Op.Who && a.Op.Name == b.Op.Name && a.Op.Val == b.Op.Val && a.Op.Ver == b.Op.Ver &&
+		(a.Op.Fault == b.Op.Fault || a.Op.Fault == "latched" || b.Op.Fault == "latched")
+}
+
+// execEdgeAlt executes edge e (index ei in g.Edges, or -1 for a synthetic edge) and compares the outcome with its label; if
+// they disagree and the specification offers the same call another outcome from this state, with that one. took is the
+// index of the edge the real system followed (ei itself, an alternative, or -1 when none agrees).
+func execEdgeAlt(sys *Sys, g *Graph, e Edge, ei int, probe bool, httpMode bool) (bad []string, out Outcome, took int) {
+	if e.Req != nil {
+		bad, out = execHTTP(sys, g, e, probe, httpRand)
+		if len(bad) == 0 {
+			return bad, out, ei
+		}
+		return bad, out, -1
+	}
 	if e.Op.Op == "reopen" {
 		out, _ = sys.Reopen()
 		out.Audit = nil
 	} else {
 		out = sys.Do(Call{Op: e.Op.Op, Who: e.Op.Who, Rules: g.Callers[e.Op.Who], Name: e.Op.Name, Val: e.Op.Val, Ver: e.Op.Ver, Fault: e.Op.Fault})
 	}
-	bad := Compare(sys.D, e.Op, out, httpMode)
 	st, notes := sys.Observe(probe)
-	bad = append(bad, notes...)
-	bad = append(bad, CompareState(g.States[e.T], st, probe)...)
-	return bad, out
+	judge := func(x Edge) []string {
+		b := Compare(sys.D, x.Op, out, httpMode)
+		b = append(b, notes...)
+		return append(b, CompareState(g.States[x.T], st, probe)...)
+	}
+	bad = judge(e)
+	if len(bad) == 0 {
+		return bad, out, ei
+	}
+	if ei >= 0 {
+		for _, xi := range g.out[e.F] {
+			if xi != ei && sameCall(e, g.Edges[xi]) && len(judge(g.Edges[xi])) == 0 {
+				return nil, out, xi
+			}
+		}
+	}
+	return bad, out, -1
 }
 
 func skipInHTTP(o Op) bool {
@@ -99,16 +154,34 @@ func (w *walker) step(ei int) bool {
 	if probe {
 		w.res.Add("probes", 1)
 	}
-	bad, out := execEdge(w.sys, w.g, e, probe, w.httpMode)
+	bad, out, took := execEdgeAlt(w.sys, w.g, e, ei, probe, w.httpMode)
 	w.hist = append(w.hist, ei)
 	w.res.Add("edges_executed", 1)
-	if !w.covered[ei] {
-		w.covered[ei] = true
-		w.res.Add("distinct_edges", 1)
-		if w.target[ei] {
-			w.pending[e.F]--
-			w.res.Add("targets_covered", 1)
+	cover := func(x int) {
+		if !w.covered[x] {
+			w.covered[x] = true
+			w.res.Add("distinct_edges", 1)
+			if w.target[x] {
+				w.pending[w.g.Edges[x].F]--
+				w.res.Add("targets_covered", 1)
+			}
 		}
+	}
+	cover(ei)
+	diverted := false
+	if took >= 0 && !w.g.States[e.F].Audit && e.Req == nil && e.Op.Op != "reopen" {
+		if took != ei {
+			w.div[freeFault(e.Op.Fault)]++
+		} else {
+			w.fol[freeFault(e.Op.Fault)]++
+		}
+	}
+	if took >= 0 && took != ei {
+		// the implementation resolved a choice the specification leaves open the other way: continue from there
+		w.res.Add("alternative_outcomes", 1)
+		cover(took)
+		e = w.g.Edges[took]
+		diverted = true
 	}
 	if len(bad) == 0 && w.fileClient && e.Op.Op == "getcond" && e.Op.Who == "su" && e.Op.Fault == "none" {
 		bad = append(bad, checkFileClient(w.sys, w.g, e)...)
@@ -129,7 +202,7 @@ func (w *walker) step(ei int) bool {
 		if w.steps%997 == 1 {
 			w.res.Sample(map[string]any{"from": StateKey(w.g.States[e.F].Proj, true), "op": opString(e.Op), "reply": out.Class, "audit": out.Audit, "to": StateKey(w.g.States[e.T].Proj, true)})
 		}
-		return true
+		return !diverted // a planned path does not continue from a state it did not expect
 	}
 	// A disagreement. Reproduce it on a fresh system before believing it.
 	if e.Req != nil {
@@ -214,7 +287,10 @@ func (w *walker) reproduce(path []int) bool {
 	defer s.Close()
 	for i, ei := range path {
 		e := w.g.Edges[ei]
-		bad, _ := execEdge(s, w.g, e, true, w.httpMode)
+		bad, _, took := execEdgeAlt(s, w.g, e, ei, true, w.httpMode)
+		if took >= 0 {
+			e = w.g.Edges[took]
+		}
 		if len(bad) == 0 && i == len(path)-1 {
 			if w.fileClient && e.Op.Op == "getcond" && e.Op.Who == "su" {
 				bad = append(bad, checkFileClient(s, w.g, e)...)
@@ -251,6 +327,9 @@ func (w *walker) bfs(from int, goal func(int) bool) []int {
 			if w.httpMode && skipInHTTP(e.Op) {
 				continue
 			}
+			if w.unavailable(e) {
+				continue
+			}
 			if _, ok := prev[e.T]; ok {
 				continue
 			}
@@ -273,7 +352,12 @@ func (w *walker) next() int {
 	for w.cursor[w.cur] < len(out) {
 		ei := out[w.cursor[w.cur]]
 		if w.target[ei] && !w.covered[ei] {
-			return ei
+			if !w.unavailable(w.g.Edges[ei]) {
+				return ei
+			}
+			w.covered[ei] = true // a choice this implementation never takes: nothing to execute
+			w.pending[w.cur]--
+			w.res.Add("targets_not_offered_by_the_implementation", 1)
 		}
 		w.cursor[w.cur]++
 	}
@@ -316,6 +400,7 @@ func TestReplayGraph(t *testing.T) {
 	w := &walker{t: t, g: g, res: res, d: NewDict(vh.Seed()), httpMode: os.Getenv("VERIF_MODE") == "http",
 		covered: make([]bool, len(g.Edges)), target: make([]bool, len(g.Edges)), pending: make([]int, len(g.States)),
 		cursor: make([]int, len(g.States)), visited: map[int]bool{}, probeN: vh.EnvInt("VERIF_PROBE_EVERY", 8), base: dir,
+		div: map[string]int{}, fol: map[string]int{},
 		seenViol: map[string]bool{}, fileClient: os.Getenv("VERIF_FILECLIENT") != "", reopenEach: os.Getenv("VERIF_REOPEN_EACH") != ""}
 	ntarget := 0
 	for i, e := range g.Edges {
@@ -377,9 +462,26 @@ func TestReplayGraph(t *testing.T) {
 			}
 		}
 	}
+	// targets that only exist behind a choice this implementation never takes are not "left"
+	reach := map[int]bool{g.Init: true}
+	for q := []int{g.Init}; len(q) > 0; q = q[1:] {
+		for _, xi := range g.out[q[0]] {
+			e := g.Edges[xi]
+			if !w.unavailable(e) && !reach[e.T] {
+				reach[e.T] = true
+				q = append(q, e.T)
+			}
+		}
+	}
 	left := 0
-	for _, p := range w.pending {
-		left += p
+	for i, e := range g.Edges {
+		if w.target[i] && !w.covered[i] {
+			if w.unavailable(e) || !reach[e.F] {
+				res.Add("targets_not_offered_by_the_implementation", 1)
+			} else {
+				left++
+			}
+		}
 	}
 	res.Set("target_edges_left", left)
 	res.Set("states_visited", len(w.visited))
